@@ -76,7 +76,7 @@ fn main() {
             // known-finding replays first (only in a normal run)
             let mut regress_bad = 0;
             if !only {
-                props::replay_known(&prop, tier, seed());
+                ctx.known_printed = props::replay_known(&prop, tier, seed());
                 let (n, bad) = props::replay_regressions(&prop);
                 regress_bad = bad;
                 ctx.extra.insert("regression_inputs_replayed".into(), serde_json::json!(n));
